@@ -162,8 +162,6 @@ func c16Show(m map[int]c16Ring) string {
 	return strings.Join(s, " ")
 }
 
-
-
 // c16ShapeH: counter-clockwise closed rings relative to an origin; for the horseshoe it also returns the one hole that fits it - a horseshoe itself, stored
 // clockwise, whose bounding-box centre lies in the notch, outside the outer ring
 func c16ShapeH(r *Rng, ox, oy int) (ring [][2]int, holeBox [4]int, hole [][2]int) {
